@@ -10,7 +10,7 @@ From FB.Base Require Import PyVal Fs.
 From FB.Gen Require Import JsonUtilGen.
 From FB.Spec Require Import JsonSpec Prog Ref Oracle Faithful.
 From FB.Model Require Import Types SimpleOps Builder Persist Core CoreOracle.
-From FB.Proofs Require Import CoreLaws4 CoreLawsJson ViewK3.
+From FB.Proofs Require Import FsLemmas CoreLaws4 CoreLawsJson ViewK3.
 Import ListNotations.
 Local Open Scope list_scope.
 
@@ -150,50 +150,52 @@ Proof.
     destruct (sanitize kw) as [skw|]; [|apply IHk; exact HS].
     destruct subs as [|x xs], subs' as [|y ys]; try contradiction; [exact I|].
     destruct HS as [H1 H2].
-    destruct x, y; cbn in H1; try contradiction; try exact I.
+    destruct x as [?q ?r ?e|xp xc xf xa xk xsubs xret xcr xra xsf|? ? ? ? ? ? ?],
+             y as [?q ?r ?e|yp yc yf ya yk ysubs yret ycr yra ysf|? ? ? ? ? ? ?]; cbn in H1; try contradiction; try exact I.
     destruct H1 as (-> & -> & -> & -> & -> & Hs & -> & Hv & -> & -> & Hk).
-    destruct (negb (path_eqb p p1)) eqn:Ep; [exact I|].
-    destruct setup_failed0; [exact I|].
+    destruct (path_eqb p yp) eqn:Ep; [|exact I]. cbn [negb].
+    apply FsLemmas.path_eqb_eq in Ep. subst yp.
+    destruct ysf; [exact I|].
     destruct (mem_path p (fst cl) || existsb (is_ancestor p) (fst cl)); [exact I|].
-    pose proof (IHfn p sa skw (Some p) subs0 subs1 None (fst cl ++ [p], snd cl) Hs) as HN.
-    destruct (follows kp (Some p) (fn p sa skw) subs0 None (fst cl ++ [p], snd cl)) as [[[[o1 b1] r1] c1]|],
-             (follows kp' (Some p) (fn p sa skw) subs1 None (fst cl ++ [p], snd cl)) as [[[[o2 b2] r2] c2]|];
+    pose proof (IHfn p sa skw (Some p) xsubs ysubs None (fst cl ++ [p], snd cl) Hs) as HN.
+    destruct (follows kp (Some p) (fn p sa skw) xsubs None (fst cl ++ [p], snd cl)) as [[[[o1 b1] r1] c1]|],
+             (follows kp' (Some p) (fn p sa skw) ysubs None (fst cl ++ [p], snd cl)) as [[[[o2 b2] r2] c2]|];
       cbn in HN; try contradiction; [|exact I].
     destruct HN as (-> & -> & Hr & ->).
     destruct r1 as [|? ?], r2 as [|? ?]; try contradiction; [|exact I].
-    assert (Epp : p = p1).
-    { destruct (path_eqb p p1) eqn:E; [|discriminate Ep]. apply path_eqb_eq. exact E. }
-    subst p1.
-    rewrite (bf_end_rel kp kp' p c1 subs0 subs1 ret0 cmpres cmpres0 raised0 o2 b2 c2 Hs Hk).
-    destruct (bf_end kp' p c1 subs1 ret0 cmpres0 raised0 o2 b2 c2); [apply IHk; exact H2|exact I].
+    rewrite (bf_end_rel kp kp' p yc xsubs ysubs yret xcr ycr yra o2 b2 c2 Hs Hk).
+    destruct (bf_end kp' p yc ysubs yret ycr yra o2 b2 c2); [apply IHk; exact H2|exact I].
   - cbn [follows]. destruct stale; [apply IHk; exact HS|].
     destruct (sanitize a) as [sa|]; [|apply IHk; exact HS].
     destruct (sanitize kw) as [skw|]; [|apply IHk; exact HS].
     destruct subs as [|x xs], subs' as [|y ys]; try contradiction; [exact I|].
     destruct HS as [H1 H2].
-    destruct x, y; cbn in H1; try contradiction; try exact I.
+    destruct x as [?q ?r ?e|? ? ? ? ? ? ? ? ? ?|xf xa xk xsubs xret xra xsf],
+             y as [?q ?r ?e|? ? ? ? ? ? ? ? ? ?|yf ya yk ysubs yret yra ysf]; cbn in H1; try contradiction; try exact I.
     destruct H1 as (-> & -> & -> & Hs & -> & -> & ->).
-    destruct (negb (String.eqb fname fname1 && pyval_same args0 sa && pyval_same kwargs0 skw)); [exact I|].
-    destruct setup_failed0; [exact I|]. cbv zeta.
+    destruct (negb (String.eqb fname yf && pyval_same ya sa && pyval_same yk skw)); [exact I|].
+    destruct ysf; [exact I|]. cbv zeta.
     destruct (existsb (py_eq (subbuild_key fname sa skw)) (snd cl)); [exact I|].
-    pose proof (IHfn sa skw None subs0 subs1 None (fst cl, snd cl ++ [subbuild_key fname sa skw]) Hs) as HN.
-    destruct (follows kp None (fn sa skw) subs0 None (fst cl, snd cl ++ [subbuild_key fname sa skw])) as [[[[o1 b1] r1] c1]|],
-             (follows kp' None (fn sa skw) subs1 None (fst cl, snd cl ++ [subbuild_key fname sa skw])) as [[[[o2 b2] r2] c2]|];
+    pose proof (IHfn sa skw None xsubs ysubs None (fst cl, snd cl ++ [subbuild_key fname sa skw]) Hs) as HN.
+    destruct (follows kp None (fn sa skw) xsubs None (fst cl, snd cl ++ [subbuild_key fname sa skw])) as [[[[o1 b1] r1] c1]|],
+             (follows kp' None (fn sa skw) ysubs None (fst cl, snd cl ++ [subbuild_key fname sa skw])) as [[[[o2 b2] r2] c2]|];
       cbn in HN; try contradiction; [|exact I].
     destruct HN as (-> & -> & Hr & ->).
     destruct r1 as [|? ?], r2 as [|? ?]; try contradiction; [|exact I].
-    destruct (sb_end ret0 raised0 o2); [apply IHk; exact H2|exact I].
+    destruct (sb_end yret yra o2); [apply IHk; exact H2|exact I].
 Qed.
 
 (* ------------------------------------------------------------------ faithful records *)
 Theorem faithful_sub_at_orel : forall kp kp' F o o' sa skw, orel kp kp' o o' ->
   faithful_sub_at kp F o sa skw = faithful_sub_at kp' F o' sa skw.
 Proof.
-  intros kp kp' F o o' sa skw H. destruct o, o'; cbn in H; try contradiction; try reflexivity.
+  intros kp kp' F o o' sa skw H.
+  destruct o as [?q ?r ?e|? ? ? ? ? ? ? ? ? ?|xf xa xk xsubs xret xra xsf],
+           o' as [?q ?r ?e|? ? ? ? ? ? ? ? ? ?|yf ya yk ysubs yret yra ysf]; cbn in H; try contradiction; try reflexivity.
   destruct H as (-> & -> & -> & Hs & -> & -> & ->). unfold faithful_sub_at.
-  pose proof (follows_rel kp kp' (ft_sub F fname0 sa skw) None subs subs0 None ([], [subbuild_key fname0 sa skw]) Hs) as HN.
-  destruct (follows kp None (ft_sub F fname0 sa skw) subs None ([], [subbuild_key fname0 sa skw])) as [[[[o1 b1] r1] c1]|],
-           (follows kp' None (ft_sub F fname0 sa skw) subs0 None ([], [subbuild_key fname0 sa skw])) as [[[[o2 b2] r2] c2]|];
+  pose proof (follows_rel kp kp' (ft_sub F yf sa skw) None xsubs ysubs None ([], [subbuild_key yf sa skw]) Hs) as HN.
+  destruct (follows kp None (ft_sub F yf sa skw) xsubs None ([], [subbuild_key yf sa skw])) as [[[[o1 b1] r1] c1]|],
+           (follows kp' None (ft_sub F yf sa skw) ysubs None ([], [subbuild_key yf sa skw])) as [[[[o2 b2] r2] c2]|];
     cbn in HN; try contradiction; [|reflexivity].
   destruct HN as (-> & -> & Hr & ->).
   destruct r1 as [|? ?], r2 as [|? ?]; try contradiction; reflexivity.
@@ -201,15 +203,18 @@ Qed.
 
 Theorem faithful_op_orel : forall kp kp' F o o', orel kp kp' o o' -> faithful_op kp F o = faithful_op kp' F o'.
 Proof.
-  intros kp kp' F o o' H. destruct o, o'; try (cbn in H; contradiction); try reflexivity.
-  - pose proof H as H0. cbn in H. destruct H as (-> & -> & -> & -> & -> & Hs & -> & Hv & -> & -> & Hk). cbn [faithful_op].
-    pose proof (follows_rel kp kp' (ft_file F fname0 p0 args0 kwargs0) (Some p0) subs subs0 None ([p0], []) Hs) as HN.
-    destruct (follows kp (Some p0) (ft_file F fname0 p0 args0 kwargs0) subs None ([p0], [])) as [[[[o1 b1] r1] c1]|],
-             (follows kp' (Some p0) (ft_file F fname0 p0 args0 kwargs0) subs0 None ([p0], [])) as [[[[o2 b2] r2] c2]|];
+  intros kp kp' F o o' H.
+  destruct o as [?q ?r ?e|xp xc xf xa xk xsubs xret xcr xra xsf|xf xa xk xsubs xret xra xsf],
+           o' as [?q ?r ?e|yp yc yf ya yk ysubs yret ycr yra ysf|yf ya yk ysubs yret yra ysf];
+    try (cbn in H; contradiction); try reflexivity.
+  - cbn in H. destruct H as (-> & -> & -> & -> & -> & Hs & -> & Hv & -> & -> & Hk). cbn [faithful_op].
+    pose proof (follows_rel kp kp' (ft_file F yf yp ya yk) (Some yp) xsubs ysubs None ([yp], []) Hs) as HN.
+    destruct (follows kp (Some yp) (ft_file F yf yp ya yk) xsubs None ([yp], [])) as [[[[o1 b1] r1] c1]|],
+             (follows kp' (Some yp) (ft_file F yf yp ya yk) ysubs None ([yp], [])) as [[[[o2 b2] r2] c2]|];
       cbn in HN; try contradiction; [|reflexivity].
     destruct HN as (-> & -> & Hr & ->).
     destruct r1 as [|? ?], r2 as [|? ?]; try contradiction; [|reflexivity].
-    rewrite (bf_end_rel kp kp' p0 c0 subs subs0 ret0 cmpres cmpres0 raised0 o2 b2 c2 Hs Hk). reflexivity.
+    rewrite (bf_end_rel kp kp' yp yc xsubs ysubs yret xcr ycr yra o2 b2 c2 Hs Hk). reflexivity.
   - pose proof H as H0. cbn in H. destruct H as (-> & -> & -> & Hs & -> & -> & ->). cbn [faithful_op].
     exact (faithful_sub_at_orel kp kp' F _ _ _ _ H0).
 Qed.
